@@ -10,6 +10,8 @@ From TV Require Import Proofs.LexEquivBase Proofs.TilingDefs Proofs.TilingNormDo
                        Proofs.PrintBackSort Proofs.PrintBackEnts Proofs.PrintBackDisplay Proofs.PrintBackSecs Proofs.PrintBackHKey Proofs.PrintBackFinal
                        Proofs.PrintBackDVals Proofs.PrintBackDDisplay Proofs.PrintBackDAll Proofs.PrintBackDState Proofs.PrintBackDKey Proofs.PrintBackIValue Proofs.PrintBackDItems
                        Proofs.PrintBackDDoc Proofs.PrintBackDFinal Proofs.PrintBackDTop.
+From TV Require Import Proofs.TilingNormScan Proofs.TilingNormStr Proofs.TilingNormTok Proofs.TilingCmt.
+From TV Require Proofs.GrammarDocLine.
 Require Import Lia Sorting.Permutation.
 
 (* a fragment: the text before the key path, the key path as printed, the key path as read, the text after it *)
@@ -52,4 +54,111 @@ Proof.
   exists fs, fs', (raw_encode (traw s (doc_trailing d)) []). split; [exact Pfs|]. split.
   - unfold render. rewrite Edisp, F1. reflexivity.
   - rewrite (norm_lines s w t l o); [|rewrite drop_bom_strip_bom; exact Es|exact Hw|exact Hlt]. rewrite <- Emap'. exact Eo.
+Qed.
+
+(* ================================================================================================================== *)
+(* the comments                                                                                                       *)
+(* ================================================================================================================== *)
+(* a byte-order mark holds no comment: `comments` is `cmts` *)
+Lemma comments_any x : comments x = cmts x.
+Proof.
+  rewrite comments_cmts. unfold drop_bom. destruct (strip_prefix Norm.bom x) as [r|] eqn:E; [|reflexivity].
+  apply strip_prefix_spec in E. subst x. symmetry.
+  assert (H : cj anyf Norm.bom []).
+  { exists (tag LNormal Norm.bom). split; [apply txt_tag|]. split; [apply piece_nq; reflexivity|]. split; reflexivity. }
+  apply (cj_cmts anyf _ _ r H I).
+Qed.
+
+(* a printed item and the item read hold the same comments *)
+Lemma item_cj s r w (it : sitem) :
+  dsh_tbl (vok s) r = true -> uk2 (hkey s) r -> t_dotted r = false -> In w (S_print r) ->
+  sitem_ok s it -> sitem_cj s it -> pfw w = fst it ->
+  exists c, cj anyf (wtext s w) c /\ cj anyf (snd it) c.
+Proof.
+  intros Hs Hu Hnd Hw Hok Hcj Ex. destruct it as [x txt]. cbn [fst snd] in *. destruct (in_S_print r w Hw) as (e & He & Hwe).
+  pose proof (sub_ents_dsh (vok s) r Hs) as Hrest. rewrite Forall_forall in Hrest.
+  pose proof (proj2 (proj2 (ents_paths2 (hkey s))) r [] false Hu (Forall_nil _)) as Hpaths. rewrite ents_eq, Hnd in Hpaths.
+  cbn [app] in Hpaths. rewrite Forall_forall in Hpaths.
+  assert (Hee : In e ((r, [], false) :: sub_ents (t_items r) [])).
+  { destruct He as [<- | He]; [left; reflexivity|right]. apply filter_In in He as [He _]. exact He. }
+  destruct (Hpaths e Hee) as [HKp HKt].
+  assert (Hes : dsh_tbl (vok s) (etbl e) = true).
+  { destruct He as [<- | He]; [exact Hs|]. apply filter_In in He as [He _]. apply (Hrest e He). }
+  destruct e as [[t p] a]. unfold etbl, epath in *. cbn [fst snd] in *. cbn [pit] in Hwe. apply in_app_iff in Hwe as [Hwe | Hwe].
+  - destruct p as [|k0 p0]; [destruct Hwe|]. destruct Hwe as [<- | []]. cbn [pfw] in Ex. subst x. cbn [sitem_cj] in Hcj.
+    destruct Hcj as (cl & ct & Hl & Ht & Hq & Htxt). exists (cl ++ ct). split; [|exact Htxt]. cbn [wtext].
+    assert (Hqh : qt CS qstop (hdr_text s (k0 :: p0) a)).
+    { destruct (hdr_shape s (k0 :: p0) a HKp ltac:(discriminate)) as (w1 & tk & w2 & Hw1 & Htk & Hw2 & E). rewrite E.
+      apply (qt_table a _ (map k_key (k0 :: p0))). apply GrammarDocLine.table_tok_eq. exists w1, tk, w2.
+      split; [destruct a; rewrite <- !app_assoc; reflexivity|auto]. }
+    apply cjx_app_any; [exact Hl|]. change ct with ([] ++ ct).
+    apply (cjx_app false qstop anyf); [apply (cj_qt CS), Hqh|exact Ht|intros z _; apply Hq].
+  - apply in_map_iff in Hwe as ([kp v] & <- & Hkv). unfold wline in *. cbn [fst snd pfw] in *. subst x.
+    pose proof (proj2 (proj2 (dsh_tv (vok s))) t [] Hes) as Hpv. unfold pvals in Hpv. rewrite Forall_forall in Hpv. destruct (Hpv _ Hkv) as [Hv _]. cbn [snd] in Hv.
+    pose proof (proj2 (proj2 (tv_paths2 (hkey s))) t [] HKt (Forall_nil _)) as Htp. rewrite Forall_forall in Htp. destruct (Htp _ Hkv) as [Hkne Hks]. cbn [fst] in *.
+    set (k' := last kp kdummy) in *. set (ks := removelast kp) in *.
+    assert (Ekp : kp = ks ++ [k']) by (apply app_removelast_last, Hkne).
+    cbn [sitem_cj] in Hcj. destruct (Hcj Hv) as (cl & ct & Hl & Ht & Hq & Htxt). exists (cl ++ ct). split; [|exact Htxt].
+    cbn [sitem_ok] in Hok. destruct Hok as (j0 & i0 & ja & jb & po & LS & r0 & _ & _ & _ & _ & _ & _ & _ & _ & _ & _ & Hlk & _).
+    cbn [wtext]. rewrite Ekp. unfold dline. cbn [fst snd]. rewrite enc_split. fold (line_lead s k').
+    replace ((line_lead s k' ++ pre_text s ks k' ++ krepr s k' ++ decor_suffix (k_leaf (tkey s k')) (snd DEFAULT_KEY_DECOR)) ++ [x3d]
+             ++ encode_value (S (value_size (tvalue s v))) (tvalue s v) DEFAULT_VALUE_DECOR ++ [x0a])
+      with (line_lead s k' ++ (pre_text s ks k' ++ krepr s k') ++ line_rest s k' v) by (unfold line_rest; rewrite <- !app_assoc; reflexivity).
+    assert (Hqk : qt CS qstop (pre_text s ks k' ++ krepr s k')).
+    { destruct (pre_shape s ks k' Hks Hlk) as (tt & Htt & Ett). rewrite Ett. apply (qt_key _ _ Htt). }
+    apply cjx_app_any; [exact Hl|]. change ct with ([] ++ ct).
+    apply (cjx_app false qstop anyf); [apply (cj_qt CS), Hqk|exact Ht|intros z _; apply Hq].
+Qed.
+
+Lemma items_cj s r (ws : list witem) : dsh_tbl (vok s) r = true -> uk2 (hkey s) r -> t_dotted r = false ->
+  (forall w, In w ws -> In w (S_print r)) ->
+  forall items : list sitem, Forall (sitem_ok s) items -> Forall (sitem_cj s) items -> map pfw ws = map fst items ->
+  exists cl : list (list bytes), Forall2 (fun t c => cj anyf t c) (map (wtext s) ws) cl /\ Forall2 (fun t c => cj anyf t c) (map snd items) cl.
+Proof.
+  intros Hs Hu Hnd. induction ws as [|w ws IH]; intros Hin items Hok Hcj E.
+  - destruct items; [|discriminate]. exists []. split; constructor.
+  - destruct items as [|it items]; [discriminate|]. cbn [map] in E. injection E as E1 E2.
+    inversion Hok as [|? ? Hit Hok']; subst. inversion Hcj as [|? ? Hic Hcj']; subst.
+    destruct (IH (fun w' H => Hin w' (or_intror H)) items Hok' Hcj' E2) as (cl & F1 & F2).
+    destruct (item_cj s r w it Hs Hu Hnd (Hin w (or_introl eq_refl)) Hit Hic E1) as (c & P1 & P2).
+    exists (c :: cl). cbn [map]. split; constructor; assumption.
+Qed.
+
+Lemma cj_concat ts cl x : Forall2 (fun t c => cj anyf t c) ts cl -> cmts (concat ts ++ x) = concat cl ++ cmts x.
+Proof.
+  induction 1 as [|t c ts cl H _ IH]; [reflexivity|]. cbn [concat]. rewrite <- !app_assoc, (cj_cmts anyf t c _ H I), IH. reflexivity.
+Qed.
+
+Lemma Permutation_concat {A} (l l' : list (list A)) : Permutation l l' -> Permutation (concat l) (concat l').
+Proof.
+  induction 1 as [|x l l' _ IH|x y l|l l' l'' _ IH1 _ IH2]; cbn [concat].
+  - constructor.
+  - apply Permutation_app_head, IH.
+  - rewrite !app_assoc. apply Permutation_app_tail, Permutation_app_comm.
+  - exact (Permutation_trans IH1 IH2).
+Qed.
+
+(* C03: the printed text keeps every comment *)
+Theorem doc_comments s d : parse_document s = POk d -> vals_ok s (doc_root d) = true -> supers_bare (doc_root d) = true ->
+  Permutation (comments (render s d)) (comments s).
+Proof.
+  intros Hp Hv Hb.
+  destruct (doc_items s d Hp) as (w & t & l & o & items & Es & Hw & Hlt & Eo & Hrd & Hdec & Hpos & Hur & Hperm & Hoks & Hsort & Hcjs).
+  destruct (dsections_struct s (doc_root d) (traw s (doc_trailing d)) items Hv Hrd Hdec Hpos Hperm Hoks Hb) as [Edisp PS].
+  apply Permutation_map_inv in PS as (items' & Emap & Pit).
+  assert (Hoks' : Forall (sitem_ok s) items') by (apply Forall_forall; intros x Hx; rewrite Forall_forall in Hoks; apply Hoks, (Permutation_in _ (Permutation_sym Pit)), Hx).
+  assert (Hcjs' : Forall (sitem_cj s) items') by (apply Forall_forall; intros x Hx; rewrite Forall_forall in Hcjs; apply Hcjs, (Permutation_in _ (Permutation_sym Pit)), Hx).
+  destruct (items_cj s (doc_root d) (S_print (doc_root d)) Hv Hur Hrd (fun _ H => H) items' Hoks' Hcjs' Emap) as (cl & F1 & F2).
+  destruct (Permutation_Forall2 (Permutation_map snd (Permutation_sym Pit)) F2) as (cl' & Pcl & F3).
+  rewrite (comments_any (render s d)), (normalize_cmts s w t l o); [|rewrite drop_bom_strip_bom; exact Es|exact Hw|exact Hlt].
+  rewrite (norm_lines s w t l o); [|rewrite drop_bom_strip_bom; exact Es|exact Hw|exact Hlt].
+  unfold render. rewrite Edisp, Eo, (cj_concat _ cl _ F1), (cj_concat _ cl' _ F3).
+  apply Permutation_app_tail, Permutation_concat, Pcl.
+Qed.
+
+(* the normal form of a document that parses has the comments of the document *)
+Theorem normalize_comments s d : parse_document s = POk d -> comments (normalize s) = comments s.
+Proof.
+  intro Hp. destruct (doc_render_dotted s d Hp) as (w & t & l & o & Es & Hw & Hlt & _).
+  rewrite comments_any. symmetry. apply (normalize_cmts s w t l o); [rewrite drop_bom_strip_bom; exact Es|exact Hw|exact Hlt].
 Qed.
